@@ -26,13 +26,17 @@ REACH = [("yamlpath/processor.py", "_get_nodes_by_path_segment,_get_nodes_by_key
          ("yamlpath/common/keywordsearches.py", "search_matches,has_child,max,min,parent,distinct,unique,name", "KeywordSearches"),
          ("yamlpath/common/searches.py", "search_matches", "Searches.search_matches")]
 SIZES = {"quick": 600000, "thorough": 6000000}
-REQUIRED_COUNTERS = ["returned", "yamlpath_error", "deep_sequence_docs", "optional_mode_queries", "docs_with_odd_keys", "docs_tagged_through_the_library"]
+REQUIRED_COUNTERS = ["docs_with_python_literal_lookalikes", "returned", "yamlpath_error", "deep_sequence_docs", "optional_mode_queries", "docs_with_odd_keys", "docs_tagged_through_the_library"]
 
 BAD_REGEX = ["(", "[", "*a", "a{2", "(?P<x", "+"]
 ODD_KEY_DOCS = ["{'': 1, a: {'': {b: 2}}}", "!!set {'', a}", "{s: !!set {'', ' '}, t: 1}", "[{'': 1}, {'': 2}]", "{h: {'': {k: 1}, x: {k: 2}}}",
                 "{' ': 1, '  ': {' ': 2}}", "{null: 1, true: 2, 1.5: 3, 2020-01-01: d, 7: e}", "{~: {~: x}}", "{'': [1, 2], b: ['']}",
                 "{'': {'': {'': leaf}}}", "{? [1, 2] : seqkey, a: 1}", "{'': &E e, b: *E}"]
 
+# plain Strings that spell OTHER Python literals (imaginary numbers, bytes, sets, ellipsis, tuples, long ints): values and terms
+LITERAL_DOCS = ["{a: [3j, 5, x, 1.5], b: 2J, c: 15e3j, d: 7}", "[{v: 3j, w: 1}, {v: 1, w: 2j}, {v: x}]", "{k: [b'ab', 1, 2], m: ..., s: '{1, 2}', t: '(1, 2)'}",
+                "[1j, 2, 3]", "{a: 0b11, b: 0o17, c: 1e400, d: -1e400, e: 1_000_000, f: [0b1, 2]}", "{l: [None, True, 1], n: None, t: True}",
+                "{a: [.nan, 1, .inf], b: -.inf, c: .NaN}"]
 SEEDS = [
     ("[a]", "[-2]"), ("[a]", "/-2"), ("[a, b]", "[1:9]"), ("{a: [x]}", "a[0:0]"),
     ("[{a: 1}, null]", "[.=x]"), ("[a, {b: 1}]", "[unique()]"), ("[a, b]", "[.=~/(/]"),
@@ -168,6 +172,9 @@ def run_shard(ctx):
         x = rng.random()
         if x < 0.15:
             text = rng.choice(gd.HOSTILE)
+        elif x < 0.17:
+            text = rng.choice(LITERAL_DOCS)
+            ctx.counters["docs_with_python_literal_lookalikes"] = ctx.counters.get("docs_with_python_literal_lookalikes", 0) + 1
         elif x < 0.2:
             text = rng.choice(ODD_KEY_DOCS)          # empty-string keys and members, blank keys, keys of every scalar type
             ctx.counters["docs_with_odd_keys"] = ctx.counters.get("docs_with_odd_keys", 0) + 1
